@@ -34,7 +34,7 @@ def REQUIRED(tier):
 
 
 def _required(tier):
-    return ["azimuth:outside_0_360", "bytes_roundtrips", "object_roundtrips", "edits_applied", "edits_refused_file_identical", "sky:dec_in_(-1,0)", "sky:carry_59.99",
+    return ["azimuth:outside_0_360", "angles:non_degree_unit", "bytes_roundtrips", "object_roundtrips", "edits_applied", "edits_refused_file_identical", "sky:dec_in_(-1,0)", "sky:carry_59.99",
             "frame:pulsarcentric", "frame:barycentric", "frame:topocentric", "edit:absent_key", "edit:unknown_key", "edit:wrong_type", "edit:out_of_range"]
 
 
@@ -192,6 +192,12 @@ def _object(case, ctx):
             source=_rand_str(rng, 1, 30 if rng.random() < 0.8 else 120), frame=frame, ibeam=int(rng.integers(0, 14)), nbeams=int(rng.integers(0, 14)),
             dm=float(rng.choice([0.0, float(rng.uniform(0, 3000))])), rawdatafile=_rand_str(rng, 0, 40 if rng.random() < 0.7 else 300),
         )
+        urng = np.random.default_rng([case["seed"], j, 71])
+        if urng.random() < 0.3:   # the same pointing angles held in another angular unit (an Angle is a quantity, not a number of degrees)
+            unit = [u.rad, u.hourangle, u.arcmin][int(urng.integers(0, 3))]
+            fields["azimuth"] = fields["azimuth"].to(unit)
+            fields["zenith"] = fields["zenith"].to(unit)
+            ctx.count("angles:non_degree_unit")
         ctx.evaluated()
         ctx.count(f"sky:{cls}")
         ctx.count(f"frame:{frame}")
